@@ -111,6 +111,24 @@ Theorem C10_distributed_aggregation_equals_central :
 Proof. exact DistTree.distributed_aggregation_equals_central. Qed.
 Print Assumptions C10_distributed_aggregation_equals_central.
 
+(* ... for any number of engines (Coalesce of n remote executions, nested two by two), empty
+   partitions included *)
+Theorem C10_distributed_aggregation_equals_central_any_number_of_engines :
+  forall cf w, (0 < Compose.c_shards cf)%nat -> (0 < Compose.c_batch cf)%nat -> (0 <= Compose.c_lookback cf)%Z ->
+  Base.wf_window w -> (Bin.noT < Base.w_start w)%Z ->
+  forall (add : Z -> Z -> Z), (forall a b c, add (add a b) c = add a (add b c)) -> (forall a b, add a b = add b a) ->
+  forall without grouping s, DistTree.sok s ->
+  forall p ps ts, DistTree.part_ok p -> Forall DistTree.part_ok ps -> In ts (Grid.grid w) ->
+  let agg := fun t => Trees.JAgg (fun v => v) add without grouping t in
+  let central := agg (DistTree.inst s (List.concat (map fst (p :: ps))) (List.concat (map snd (p :: ps)))) in
+  let distributed := agg (DistTree.jcoalesce (DistTree.remote_of add without grouping s p) (map (DistTree.remote_of add without grouping s) ps)) in
+  exists outs_c outs_d,
+    Trees.jrun cf w central = inl outs_c /\ Trees.jrun cf w distributed = inl outs_d /\
+    Permutation (Bin.labelled Z (Trees.jseries central) (DistTree.step_of outs_c ts))
+                (Bin.labelled Z (Trees.jseries distributed) (DistTree.step_of outs_d ts)).
+Proof. exact DistTree.distributed_aggregation_equals_central_n. Qed.
+Print Assumptions C10_distributed_aggregation_equals_central_any_number_of_engines.
+
 (* count: every engine counts its own partition and the coordinator sums the counts
    (conv: the count as a sample value, additive) *)
 Theorem C10_distributed_count_equals_central :
@@ -148,7 +166,7 @@ Proof. cbv zeta. split; vm_compute; reflexivity. Qed.
    distributive reductions for every partitioning, and end to end - through the
    remote execution's read-back and the coalesce operator - per-series expressions
    sum/max/min and count aggregations of them over two engines. Not proved end to end:
-   group, topk/bottomk (C10_topk_pushdown: sound for tie-free data), more than two
-   engines (Coalesce nests), and expressions whose distributed form mixes pushed and
+   group, topk/bottomk (C10_topk_pushdown: sound for tie-free data), count and plain
+   expressions over more than two engines, and expressions whose distributed form mixes pushed and
    unpushed parts. Those are decided by the dist oracle and the distributed tree
    correspondence of the check. *)
